@@ -85,6 +85,33 @@ func (fr *frame) doCall(instr *ssa.Call, c *ssa.CallCommon, fnv Val, args []Val,
 		callee = fnv.Clo.Fn
 		bindings = fnv.Clo.Bindings
 	}
+	if callee == nil && len(fnv.Alts) > 0 {
+		// function value selected among known closures: the preconditions of
+		// each candidate must hold on the paths that select it; effects are
+		// the union of the candidates' effects
+		ms := map[string]int{}
+		mayPanic := false
+		for _, a := range fnv.Alts {
+			f, fargs := a.Clo.Fn, args
+			binds := a.Clo.Bindings
+			if target := boundTarget(f); target != nil && len(binds) == 1 {
+				f, fargs, binds = target, append([]Val{binds[0]}, args...), nil
+			}
+			ri := ft.define("reach_alt", SBool, and(reach, a.Cond))
+			fr.checkPreOnly(f, c, fargs, binds, st, ri, pos)
+			for h, l := range e.modSetLevels(f) {
+				if ms[h] < l {
+					ms[h] = l
+				}
+			}
+			if e.mayPanic(f) {
+				mayPanic = true
+			}
+			ft.havocked[f.String()] = true
+		}
+		fr.escapeArgs(st, args)
+		return fr.havocCall(instr, c.Signature(), ms, mayPanic, st, reach, xedges)
+	}
 	if callee == nil {
 		// unknown function value
 		fv := ft.termOf(fnv, c.Value.Type())
@@ -404,6 +431,9 @@ func (fr *frame) applyContract(instr *ssa.Call, callee *ssa.Function, c *ssa.Cal
 	}
 	cname := fc.Name
 	for _, r := range fc.Requires {
+		if r.Hypothesis {
+			continue
+		}
 		goal, err := env.evalBool(r.E)
 		if err != nil {
 			e.contractError(r, err)
@@ -670,7 +700,7 @@ func (fr *frame) builtin(instr *ssa.Call, b *ssa.Builtin, c *ssa.CallCommon, arg
 			s := argT(1)
 			srcLen = sx("slen", s.S)
 			srcArr = sel(ft.heapTerm(st, h), sx("sbase", s.S))
-			srcOff = sx("soff", s.S)
+			srcOff = s.S
 		}
 		n := ft.define("ncopy", SInt, ite(sx("<", sx("slen", d.S), srcLen), sx("slen", d.S), srcLen))
 		oldArr := ft.define("oldarr", arraySort(SInt, es), sel(ft.heapTerm(st, h), sx("sbase", d.S)))
@@ -682,7 +712,7 @@ func (fr *frame) builtin(instr *ssa.Call, b *ssa.Builtin, c *ssa.CallCommon, arg
 		inRange := fmt.Sprintf("(and (<= %s j) (< j (+ %s %s)))", doff, doff, n)
 		var src string
 		if srcArr != "" {
-			src = fmt.Sprintf("(select %s (+ %s (- j %s)))", srcArr, srcOff, doff)
+			src = fmt.Sprintf("(select %s (ix %s (- j %s)))", srcArr, srcOff, doff)
 			ft.assume("true", fmt.Sprintf("(forall ((j Int)) (! (= (select %s j) (ite %s %s (select %s j))) :pattern ((select %s j))))", na, inRange, src, oldArr, na))
 		} else {
 			ft.assume("true", fmt.Sprintf("(forall ((j Int)) (! (=> (not %s) (= (select %s j) (select %s j))) :pattern ((select %s j))))", inRange, na, oldArr, na))
@@ -759,13 +789,13 @@ func (fr *frame) appendCall(instr *ssa.Call, c *ssa.CallCommon, args []Val, st *
 		t := ft.termOf(args[1], c.Args[1].Type())
 		tArr := ft.define("app_t", arraySort(SInt, es), sel(heap, sx("sbase", t.S)))
 		tLen = ft.define("app_tlen", SInt, sx("slen", t.S))
-		tAt = fmt.Sprintf("(select %s (+ %s (- j %s)))", tArr, sx("soff", t.S), sLen)
+		tAt = fmt.Sprintf("(select %s (ix %s (- j %s)))", tArr, t.S, sLen)
 	}
 	na := ft.fresh("app_arr", arraySort(SInt, es))
 	total := ft.define("app_len", SInt, sx("+", sLen, tLen))
 	ft.assume("true", fmt.Sprintf(
-		"(forall ((j Int)) (! (=> (and (<= 0 j) (< j %s)) (= (select %s j) (ite (< j %s) (select %s (+ %s j)) %s))) :pattern ((select %s j))))",
-		total, na, sLen, sArr, sx("soff", s.S), tAt, na))
+		"(forall ((j Int)) (! (=> (and (<= 0 j) (< j %s)) (= (select %s j) (ite (< j %s) (select %s (ix %s j)) %s))) :pattern ((select %s j))))",
+		total, na, sLen, sArr, s.S, tAt, na))
 	ft.setHeap(st, h, store(ft.heapTerm(st, h), r, na))
 	cp := ft.fresh("app_cap", SInt)
 	ft.assume("true", sx(">=", cp, total))
@@ -790,7 +820,7 @@ func (fr *frame) checkPreOnly(callee *ssa.Function, c *ssa.CallCommon, args, bin
 		}
 	}
 	for _, r := range fc.Requires {
-		if r.E == nil {
+		if r.E == nil || r.Hypothesis {
 			continue
 		}
 		goal, err := env.evalBool(r.E)
@@ -814,4 +844,21 @@ func (fr *frame) havocStableForExc(xs *State, ms map[string]int) {
 			ft.havocHeap(xs, h)
 		}
 	}
+}
+
+// boundTarget: the method behind a bound-method wrapper (s.m used as a value).
+func boundTarget(f *ssa.Function) *ssa.Function {
+	if f == nil || !strings.HasPrefix(f.Synthetic, "bound method wrapper") {
+		return nil
+	}
+	for _, b := range f.Blocks {
+		for _, ins := range b.Instrs {
+			if c, ok := ins.(ssa.CallInstruction); ok {
+				if sc := c.Common().StaticCallee(); sc != nil {
+					return sc
+				}
+			}
+		}
+	}
+	return nil
 }
